@@ -372,7 +372,10 @@ class Encoder:
             nxt = self.single(w, succ)
         elif kind == "LOCK":
             # enabled only while the mutex is free (see build(): a thread at a LOCK node cannot be scheduled otherwise)
-            self.tick(w, t)
+            if op.get("touch"):            # the mutex is reached through a field of the tracked shared object
+                self.touch_event(w, t)
+            else:
+                self.tick(w, t)
             for u in range(self.T):
                 w.s("C%d_%d" % (t, u), mx(w.g("C%d_%d" % (t, u)), w.g("MV%d" % u)))
             w.s("mfree", z3.BoolVal(False))
@@ -466,6 +469,38 @@ class Encoder:
             nxt = self.single(w, succ)
         elif kind == "NOP":
             nxt = self.single(w, succ)
+        elif kind == "TRYLOCK":                # Mutex::try_lock: never blocks; Ok(guard) iff the mutex is free
+            self.tick(w, t)
+            free = w.g("mfree")
+            for u in range(self.T):
+                w.s("C%d_%d" % (t, u), z3.If(free, mx(w.g("C%d_%d" % (t, u)), w.g("MV%d" % u)), w.g("C%d_%d" % (t, u))))
+            w.s("mfree", z3.BoolVal(False))
+            nxt = z3.If(free, self.target(w, succ["OK"]), self.target(w, succ["ERR"]))
+        elif kind == "PARENT_DATA":            # Waker::data() of whatever waker the parent mutex holds
+            self.tick(w, t)
+            w.flag_bad(w.g("mfree"), BAD_CELL)
+            nxt = N(END)
+            known = []
+            for wid, d in sorted(op["data_of"].items()):
+                nxt = z3.If(w.g("aw_id") == BV8(wid), self.target(w, succ[d]), nxt)
+                known.append(w.g("aw_id") == BV8(wid))
+            w.flag_bad(z3.Not(z3.Or(*known)), BAD_RANGE)
+        elif kind == "PARENT_WILL_WAKE":       # future_deque: does the waker stored in the parent mutex equal waker k?
+            self.tick(w, t)
+            w.flag_bad(w.g("mfree"), BAD_CELL)
+            nxt = z3.If(w.g("aw_id") == BV8(op["waker"]), self.target(w, succ[1]), self.target(w, succ[0]))
+        elif kind == "PARENT_STORE":           # clone_from(waker k) into the mutex-protected parent
+            self.tick(w, t)
+            w.flag_bad(w.g("mfree"), BAD_CELL)
+            w.s("aw_id", BV8(op["waker"]))
+            nxt = self.single(w, succ)
+        elif kind == "PARENT_CLONE":           # clone of whatever waker the parent mutex holds
+            self.tick(w, t)
+            w.flag_bad(w.g("mfree"), BAD_CELL)
+            w.flag_bad(w.g("hand%d" % t) != 0, BAD_WAKER)
+            w.s("hand%d" % t, w.g("aw_id"))
+            w.s("clones", w.g("clones") + N(1))
+            nxt = self.single(w, succ)
         else:
             raise ValueError("node kind " + kind)
         gh = op.get("ghost") or {}
@@ -493,6 +528,8 @@ class Encoder:
                 w.s("status%d" % o_, BV8(status_))
                 if res_ is not None:
                     w.s("res%d" % o_, BV8(res_))
+            elif key == "stamp_hand":          # record which waker the thread holds at this step (res register of op val)
+                w.s("res%d" % val, w.g("hand%d" % t))
             elif key == "lastw":
                 a_, wid = val
                 w.s("lastw%d" % a_, BV8(wid))
@@ -580,7 +617,7 @@ class Encoder:
                 self.add(S0.CW[c][t] == N(0))
         for k_, v in S0.cnt.items():
             self.add(v == N(0))
-        self.add(S0.aw_id == BV8(0), S0.woken == BV8(0), S0.bad == N(0), S0.race == N(0), S0.last_pending == BV8(0), S0.outcome == BV8(0),
+        self.add(S0.aw_id == BV8(self.init_vals.get("aw_id", 0)), S0.woken == BV8(0), S0.bad == N(0), S0.race == N(0), S0.last_pending == BV8(0), S0.outcome == BV8(0),
                  z3.Not(S0.recv_gone), z3.Not(S0.sender_done))
         for i in range(self.k):
             a, b = self.S[i], self.S[i + 1]
@@ -595,6 +632,8 @@ class Encoder:
                     w, nxt, side = self.effect(t, node, a, i)
                     if node["op"]["kind"] == "LOCK":
                         side = side + [a.mfree]          # blocked while the mutex is held
+                    if node["op"].get("await") is not None:      # blocking receive: schedulable only once the value is there
+                        side = side + [a.curL[node["op"]["loc"]] == BV8(node["op"]["await"])]
                     w.f["pc%d" % t] = nxt
                     cond = z3.And(g, a.pc[t] == N(nid))
                     for key in fa:
